@@ -1,7 +1,15 @@
 """Correspondences beyond categorize/tokenize/parse: K-clo, K-buf, K-args,
-K-view, K-edit.  Each is added here when its Coq model exists; until then
-`run` returns None and the evidence says so."""
+K-view, K-edit.  A runner is registered when its module (and Coq model)
+exists; `run` returns None for the others and the evidence says so."""
+import importlib
+
 RUNNERS = {}
+for kind, mod in (('K-clo', 'corr_clo'), ('K-buf', 'corr_buf'), ('K-args', 'corr_args'),
+                  ('K-view', 'corr_view'), ('K-edit', 'corr_edit')):
+    try:
+        RUNNERS[kind] = importlib.import_module(mod).run
+    except ImportError:
+        pass
 
 
 def run(kind, prop, tier):
